@@ -365,7 +365,9 @@ func (r *Reconciler) selectNodes(logger logr.Logger, daemonset *datadoghqv1alpha
 		currentNodes = canaryStatus.Nodes
 	}
 
-	nbCanaryPod, err := intstrutil.GetValueFromIntOrPercent(daemonsetSpec.Strategy.Canary.Replicas, int(replicaset.Status.Desired), true)
+	// A percentage is resolved against the number of pods the ExtendedDaemonSet wants, as the caller does; the
+	// canary replica set itself reports no desired pod before its nodes are selected.
+	nbCanaryPod, err := intstrutil.GetValueFromIntOrPercent(daemonsetSpec.Strategy.Canary.Replicas, int(daemonset.Status.Desired), true)
 	if err != nil {
 		return err
 	}
